@@ -132,8 +132,8 @@ type progEnv struct {
 	// ownPC: each interpreter gets the next instruction planted at ITS OWN program counter in its own
 	// memory (for oracles that judge each interpreter by itself, C12): an interpreter whose registers
 	// went astray earlier -- some other property's business -- still executes the path's instructions.
-	ownPC bool
-	cur   [2]cpuh.Raw
+	ownPC  bool
+	cur    [2]cpuh.Raw
 	ref    ref65816.State
 	path   []int
 	seed   int
